@@ -49,16 +49,19 @@ RULE = (
     "'r' under a held handle.  non-trivial = the case reaches Workspace._io_call with a request for a writable mode"
 )
 LEVEL_TEXT = (
-    "Proved in Coq for ALL operation sequences without an explicit writable re-open on a workspace built with mode 'r': the "
-    "model's file (log of H5Writer routines that ran) is unchanged, the handle stays 'r' or closed, and every operation that "
-    "contains a writer routine is refused (read-only error, or closed-file error when closed); the hypothesis that the "
-    "operations' _io_call's are gated is itself a theorem over the complete table of call sites extracted by ast from the "
-    "current source on every run (vm_compute; 75 rows today, 23 _io_call sites, 32 fetch_h5_handle sites, H5Reader free of "
-    "mutating statements). Also proved: the constructor mode is invariant over any history, a handle of a workspace built 'r' "
-    "becomes writable only by an explicit open(writable mode), and every step of a read-only span leaves the file unchanged. Helpers: path2workspace and monitored_directory_copy modelled and proved read-only. Partial: "
-    "byte-level immutability rests on h5py's mode enforcement and is observed (SHA-256 before/after, geoh5.mode, exception "
-    "kind) for every public mutating entry point (~380 by reflection, each also run on an r+ twin) and random sequences; "
-    "model and code are compared per case inside Coq, including the static site of every traced _io_call."
+    "Proved in Coq (8 theorems, closed under the global context) for ALL operation sequences without an explicit writable re-open "
+    "on a workspace built with mode 'r': the model's file (log of H5Writer routines that ran) is unchanged, the handle stays 'r' "
+    "or closed, and every operation that contains a writer routine is refused (read-only error, or closed-file error when "
+    "closed). Also: the constructor mode is invariant over any history; a handle of a workspace built 'r' becomes writable only "
+    "by an explicit open(writable mode) -- this one under the premise close_fault = false (the final save inside close() does "
+    "not itself raise); every step of a read-only span leaves the file unchanged. The hypothesis that the operations' "
+    "_io_call's are gated is a theorem over the complete table of call sites extracted by ast from the current source on every "
+    "run (vm_compute; row counts of the run are in coverage.tables; H5Reader free of mutating statements). Helpers "
+    "path2workspace and monitored_directory_copy are modelled and proved read-only. Partial: byte-level immutability rests on "
+    "h5py's mode enforcement and is observed (SHA-256 before/after, geoh5.mode, exception kind) for every public mutating entry "
+    "point found by reflection (each also run on an r+ twin, and a subset on a workspace whose open fell back to 'r'), random "
+    "and span sequences, and helper cases; model and code are compared per case inside Coq, including the static site of every "
+    "traced _io_call. Not modelled: the external h5repack step of close(), which file the workspace points at after save_as."
 )
 TECHNIQUE = "Coq proof (invariant over all op sequences) + vm_compute over an ast-extracted call-site table + differential runs"
 DRIVE_TIMEOUT = 900
